@@ -54,8 +54,12 @@ NO_PANIC_EXACT = {
     "std::array::<impl [T; N]>::as_slice", "std::array::<impl [T; N]>::as_mut_slice",
     "std::array::equality::<impl std::cmp::PartialEq<[U; N]> for [T; N]>::eq", "std::array::equality::<impl std::cmp::PartialEq<[U; N]> for [T; N]>::ne",
     "std::cmp::PartialEq::ne", "std::cmp::PartialEq::eq",
+    "std::cmp::impls::<impl std::cmp::PartialEq<&B> for &A>::eq", "std::cmp::impls::<impl std::cmp::PartialEq<&B> for &A>::ne",
     "std::fmt::Formatter::<'a>::write_str", "std::io::Read::read_exact", "std::io::Write::write_all",
     "std::slice::<impl [T]>::to_vec", "std::vec::Vec::<T, A>::len",
+    # growth panics only on capacity overflow (> isize::MAX bytes), unreachable before allocation failure (out of scope)
+    "core::bool::<impl bool>::then", "core::bool::<impl bool>::then_some", "std::option::Option::<T>::ok_or_else", "std::option::Option::<T>::unwrap_or_else", "std::option::Option::<T>::map_or_else", "std::option::Option::<T>::and_then", "std::option::Option::<T>::filter", "std::option::Option::<T>::copied", "std::result::Result::<T, E>::map_or", "std::result::Result::<T, E>::unwrap_or", "std::result::Result::<T, E>::unwrap_or_else", "std::result::Result::<T, E>::or_else",
+    "std::mem::size_of", "core::mem::size_of", "std::vec::Vec::<T>::new", "std::vec::Vec::<T, A>::extend_from_slice", "std::vec::Vec::<T, A>::push", "std::vec::Vec::<T, A>::as_slice", "std::vec::Vec::<T, A>::is_empty",
     "<digest::generic_array::GenericArray<T, N> as std::ops::Deref>::deref", "<std::vec::Vec<T, A> as std::ops::Deref>::deref", "<std::vec::Vec<T, A> as std::ops::DerefMut>::deref_mut",
     "std::clone::Clone::clone", "std::default::Default::default",
 }
@@ -163,6 +167,12 @@ def check(ctx, rep):
                         rep.undecided("overflow", p, role, "overflow check on type %s" % ty, b.loc(bi))
                         continue
                     ra, rb = pr.rng(ops[0], bi), pr.rng(ops[1], bi)
+                    if op in ("Shl", "Shr"):
+                        # the check is on the shift amount only: it must be below the bit width
+                        bits = int(tr[1]).bit_length() + (1 if tr[0] < 0 else 0)
+                        ok = rb[0] >= 0 and rb[1] < bits
+                        rep.check(ok, "overflow", p, role, "shift amount in [%s,%s] < %d bits of %s" % (rb[0], rb[1], bits, ty), "shift overflow possible: amount in [%s,%s] is not provably below the %d bits of %s" % (rb[0], rb[1], bits, ty), b.loc(bi))
+                        continue
                     if op == "Add":
                         hi, lo = ra[1] + rb[1], ra[0] + rb[0]
                     elif op == "Mul":
@@ -344,6 +354,13 @@ def call_obligation(ctx, rep, world, pr, p, b, bi, t, info, n_site, r32_sinks):
             rep.check(ok, "unwrap", p, role, "justified: the stored bytes are ASCII (" + why + ")", "from_utf8(..).unwrap() on bytes that are not provably ASCII: " + why, b.loc(bi))
             return
         rep.undecided("unwrap", p, role, "unwrap/expect whose success is not established: %s" % show(src, maxdepth=3), b.loc(bi))
+        return
+    if name == "std::vec::Vec::<T>::with_capacity":
+        # panics iff the capacity in bytes exceeds isize::MAX; decided for byte vectors
+        ra = [fb.ty(a["ty"]).s for a in t.get("resolved_args", []) if "ty" in a]
+        r = pr.rng(args[0], bi)
+        ok = ra[:1] == ["u8"] and r[1] <= 2 ** 63 - 1
+        rep.check(ok, "bounds", p, "with_capacity#%d" % seq, "capacity in [%s,%s] bytes <= isize::MAX" % r, "Vec::with_capacity: capacity [%s,%s] of %s elements is not provably <= isize::MAX bytes" % (r[0], r[1], ra[:1]), b.loc(bi))
         return
     if name == "num_bigint::BigInt::modpow" or ("std::ops::Rem" in name and "num_bigint" in name):
         rep.ok("bigint-precondition", p, "%s#%d" % (short, seq), "wrapper body: preconditions are checked at the formula level (rule bigint-precondition on callers)", b.loc(bi))
